@@ -73,6 +73,26 @@ int32_t checkSigAlg(ssl_t *ssl,
 {
     uint32_t check = 0;
 
+# if defined(USE_TLS_1_3) && defined(USE_ED25519)
+    if (USING_TLS_1_3(ssl) && certSigAlg == OID_ED25519_KEY_ALG)
+    {
+        /* The masks have no bit for Ed25519 (peerSupportsSigAlg calls it
+           unknown, so a client holding an Ed25519-signed certificate never
+           found it suitable and answered every CertificateRequest with an
+           empty Certificate): look at the peer's list itself. */
+        psSize_t i;
+
+        for (i = 0; i < keySelect->peerCertSigAlgsLen; i++)
+        {
+            if (keySelect->peerCertSigAlgs[i] == sigalg_ed25519)
+            {
+                return PS_SUCCESS;
+            }
+        }
+        return PS_FAILURE;
+    }
+# endif
+
     if (USING_TLS_1_3(ssl))
     {
         check = keySelect->peerCertSigAlgMask;
